@@ -329,6 +329,14 @@ def _pairing_run(fx, path, args, extra=None):
                 fr.storev(t['dest'], v.payload)
                 return True
             return False
+        if nm == 'is_zero' and c.get('trait') in ('CurveAffine', 'CurveProjective') and len(a) == 1:
+            v = fr.deref_operand(a[0])
+            for _ in range(4):
+                if isinstance(v, Ref):
+                    v = fr._project(fr.store.get(v.root, TOP), v.proj)
+            if isinstance(v, tuple) and len(v) == 3 and v[0] in ('P', 'Q'):
+                fr.storev(t['dest'], Int(v[2], 1))        # scenario element: identity or not
+                return True
         return bitlin.transfer(I, fr, t, c, pth)
     import inline as INL
     I = exp.Interp(fx, 'none', extra_transfer=tr, max_steps=200000, inline=lambda q: INL.is_private_helper(fx, q))
@@ -338,9 +346,40 @@ def _pairing_run(fx, path, args, extra=None):
     return I, res
 
 
+def _wiring_verdict(res, zs):
+    """zs: [(p_is_identity, q_is_identity)] per index.  The value must be one final exponentiation of one Miller loop
+    over index-matched prepared pairs that include every pair of two finite points exactly once (pairs with an identity
+    contribute the factor 1 and may be passed or left out; the order of the pairs is immaterial)."""
+    if len(res) != 1:
+        return '%d paths' % len(res)
+    pth, ret, _ = res[0]
+    if [e[0] for e in pth.events].count('miller_loop') != 1 or [e[0] for e in pth.events].count('final_exponentiation') != 1:
+        return 'not exactly one Miller loop and one final exponentiation'
+    if not (isinstance(ret, tuple) and ret and ret[0] == 'fe' and isinstance(ret[1], tuple) and ret[1] and ret[1][0] == 'ml'):
+        return 'returns %r' % (ret,)
+    seen = []
+    for it in ret[1][1]:
+        if not (isinstance(it, tuple) and len(it) == 3 and it[0] == 'tuple' and all(isinstance(x, tuple) and x and x[0] == 'prep' for x in it[1:])):
+            return 'Miller loop receives %r' % (it,)
+        a, b = it[1][1], it[2][1]
+        if not (isinstance(a, tuple) and isinstance(b, tuple) and len(a) == 3 and len(b) == 3 and a[0] == 'P' and b[0] == 'Q'):
+            return 'Miller loop receives the pair (%r, %r)' % (a, b)
+        if a[1] != b[1]:
+            return 'p[%d] is paired with q[%d]' % (a[1], b[1])
+        if a[1] in seen:
+            return 'pair %d is used twice' % a[1]
+        seen.append(a[1])
+    for k, (zp, zq) in enumerate(zs):
+        if not zp and not zq and k not in seen:
+            return 'the pair (p[%d], q[%d]) of two finite points is left out' % (k, k)
+    return None
+
+
 def rule_wiring(fx, rep):
     """pairing / pairing_product / pairing_multi_product = final_exponentiation(miller_loop([(prepare(p_i), prepare(q_i))]))
-    with matching indices: decided by interpreting the helpers over symbolic elements (any loop / iterator shape)."""
+    with matching indices: decided by interpreting the helpers over scenario elements (each one the identity or not), for
+    any loop / iterator / filter shape."""
+    import itertools
     for nm, npairs in (('pairing', 1), ('pairing_product', 2)):
         p = fx.trait_default('Engine', nm)
         b = fx.body(p) if p else None
@@ -350,35 +389,39 @@ def rule_wiring(fx, rep):
         rep.fn(p)
         over = [i['self_ty'] for i in fx.impls_of('Engine') for it in i['items'] if it['name'] == nm]
         rep.check(not over, 'WIRE', 'Engine::%s:not-overridden' % nm, 'Bls12 uses the default', 'overridden by %s' % over)
-        args = []
-        for k in range(npairs):
-            args += [('P', k), ('Q', k)]
-        want = ('fe', ('ml', tuple(('tuple', ('prep', ('P', k)), ('prep', ('Q', k))) for k in range(npairs))))
-        try:
-            I, res = _pairing_run(fx, p, args)
-            rep.sites(I.call_sites)
-            ok = len(res) == 1 and res[0][1] == want and [e[0] for e in res[0][0].events].count('miller_loop') == 1
-            rep.check(ok, 'WIRE', 'Engine::%s' % nm, 'final_exponentiation(miller_loop([(prepare(p_i), prepare(q_i))])) with one Miller loop and one final exponentiation',
-                      'returns %r' % ([r[1] for r in res],), fx.fn(p)['span'], construct=p)
-        except (exp.NotDerivable, exp.Budget) as e:
-            rep.fail('WIRE', 'Engine::%s' % nm, 'not derivable: %s' % e, fx.fn(p)['span'], construct=p)
-    # pairing_multi_product: same index for both lists, for 0..3 pairs
+        bad = []
+        for zs in itertools.product([(0, 0), (0, 1), (1, 0), (1, 1)], repeat=npairs):
+            args = []
+            for k in range(npairs):
+                args += [('P', k, zs[k][0]), ('Q', k, zs[k][1])]
+            try:
+                I, res = _pairing_run(fx, p, args)
+                rep.sites(I.call_sites)
+                why = _wiring_verdict(res, zs)
+                if why:
+                    bad.append('identities %s: %s' % (list(zs), why))
+            except (exp.NotDerivable, exp.Budget) as e:
+                bad.append('identities %s: not derivable: %s' % (list(zs), e))
+        rep.check(not bad, 'WIRE', 'Engine::%s' % nm, 'for every placement of identities: final_exponentiation(miller_loop(index-matched prepared pairs incl. every finite pair)) with one Miller loop and one final exponentiation',
+                  '; '.join(bad[:2])[:600], fx.fn(p)['span'], construct=p)
+    # pairing_multi_product: same index for both lists, for 0..3 pairs and every placement of identities
     p = fx.trait_default('Engine', 'pairing_multi_product')
     b = fx.body(p) if p else None
     if b is not None:
         rep.fn(p)
         bad = []
         for n in range(4):
-            extra = {'PS': Agg([('P', k) for k in range(n)]), 'QS': Agg([('Q', k) for k in range(n)])}
-            want = ('fe', ('ml', tuple(('tuple', ('prep', ('P', k)), ('prep', ('Q', k))) for k in range(n))))
-            try:
-                I, res = _pairing_run(fx, p, [Ref('PS', []), Ref('QS', [])], extra=extra)
-                rep.sites(I.call_sites)
-                if not (len(res) == 1 and res[0][1] == want and [e[0] for e in res[0][0].events].count('miller_loop') == 1):
-                    bad.append('%d pairs: returns %r' % (n, [r[1] for r in res]))
-            except (exp.NotDerivable, exp.Budget) as e:
-                bad.append('%d pairs: not derivable: %s' % (n, e))
-        rep.check(not bad, 'WIRE', 'Engine::pairing_multi_product', 'for 0..3 pairs: one final exponentiation of one Miller loop over (prepare(p[i]), prepare(q[i])) with the same index',
+            for zs in itertools.product([(0, 0), (0, 1), (1, 0), (1, 1)], repeat=n):
+                extra = {'PS': Agg([('P', k, zs[k][0]) for k in range(n)]), 'QS': Agg([('Q', k, zs[k][1]) for k in range(n)])}
+                try:
+                    I, res = _pairing_run(fx, p, [Ref('PS', []), Ref('QS', [])], extra=extra)
+                    rep.sites(I.call_sites)
+                    why = _wiring_verdict(res, zs)
+                    if why:
+                        bad.append('%d pairs, identities %s: %s' % (n, list(zs), why))
+                except (exp.NotDerivable, exp.Budget) as e:
+                    bad.append('%d pairs, identities %s: not derivable: %s' % (n, list(zs), e))
+        rep.check(not bad, 'WIRE', 'Engine::pairing_multi_product', 'for 0..3 pairs and every placement of identities: one final exponentiation of one Miller loop over (prepare(p[i]), prepare(q[i])) with the same index, every finite pair included once',
                   '; '.join(bad[:2])[:600], fx.fn(p)['span'], construct=p)
     else:
         rep.fail('WIRE', 'Engine::pairing_multi_product:anchor', 'not found')
